@@ -459,7 +459,38 @@ class Gen:
                 fill(m)
             for w in sorted(used_wkt):
                 f.imports.append(f"google/protobuf/{w}.proto")
+        self.dedupe_enum_members(files)
         return Schema(f"main-{idx}", {f.name: render_file(f) for f in files})
+
+    @staticmethod
+    def dedupe_enum_members(files):
+        """K8: pythonize_enum_member_name strips the (flattened, upper-snake) enum name wherever it occurs in a
+        member name (enum E: DONE -> "", MAX_VALUE -> ""), so distinct members can collapse; the main stream drops
+        the later member of such a pair"""
+        from betterproto.compile.naming import pythonize_enum_member_name
+
+        def fix(e, path):
+            flat = "".join("_" + x for x in path + [e.name])
+            seen, keep = set(), []
+            for n, v in e.values:
+                py = pythonize_enum_member_name(n, flat)
+                if py in seen:
+                    continue
+                seen.add(py)
+                keep.append((n, v))
+            e.values = keep
+            e.alias = len({v for _, v in keep}) < len(keep)
+
+        def walk(m, path):
+            for e in m.enums:
+                fix(e, path + [m.name])
+            for n in m.nested:
+                walk(n, path + [m.name])
+        for f in files:
+            for e in f.enums:
+                fix(e, [])
+            for m in f.messages:
+                walk(m, [])
 
 
 def py_of(t):
